@@ -355,6 +355,8 @@ func c13(c *Ctx) {
 	r.Rule("R13.F", "parameters ↔ struct fields in order: TL→Go type map (boxed types resolved by constructor-id sets), flag bit, encoded_in_bitflags ⇔ true, FlagIndex() = position of flags:#", 1100)
 	r.Rule("R13.R", "registered set = schema set minus the documented exclusions; exclusion table agrees with tlparser.excludedDefinitions; enums registered as enums", 60)
 	r.Rule("R13.W", "hand-written wrappers carry the id and fields of their schema lines", 3)
+	r.Rule("R13.A", "every generated client method hands back the server's answer: on each success return the result is the value of the type assertion on MakeRequest's result (not the assertion's ok flag, a constant or another value)", 330)
+	c13AnswerReturned(c)
 	r.Rule("R13.M", "each function has a client method that sends its request type with argument k in field k and asserts the schema's result kind (Bool→bool, Vector<T>→[]T′ with identical hint)", 343)
 	r.Rule("R13.S", "each registered MTProto service type equals its mtproto.tl line", 30)
 
@@ -1048,5 +1050,62 @@ func c13WrapperMethods(c *Ctx) {
 			continue
 		}
 		r.Check(len(bad) == 0, "R13.W", key, c.pos(f.Pos()), strings.Join(bad, "; "))
+	}
+}
+
+// c13AnswerReturned: R13.A over every method of *telegram.Client that calls MakeRequest / MakeRequestWithHintToDecoder
+// and returns (T, error).
+func c13AnswerReturned(c *Ctx) {
+	r := c.R
+	var fns []*ssa.Function
+	for f := range c.P.AllFunctions() {
+		if load.FuncPkgPath(f) != load.TgPkg || f.Synthetic != "" || len(f.Blocks) == 0 || f.Signature.Recv() == nil || f.Parent() != nil {
+			continue
+		}
+		if !strings.HasSuffix(f.Signature.Recv().Type().String(), "telegram.Client") || f.Signature.Results().Len() != 2 {
+			continue
+		}
+		fns = append(fns, f)
+	}
+	sort.Slice(fns, func(i, j int) bool { return fns[i].String() < fns[j].String() })
+	for _, f := range fns {
+		var answer ssa.Value
+		for _, cs := range an.Calls(f) {
+			if strings.HasSuffix(cs.Name, "Client).MakeRequest") || strings.HasSuffix(cs.Name, "Client).MakeRequestWithHintToDecoder") || strings.HasSuffix(cs.Name, "MTProto).MakeRequest") || strings.HasSuffix(cs.Name, "MTProto).MakeRequestWithHintToDecoder") {
+				if v, ok := cs.Instr.(ssa.Value); ok {
+					for _, ref := range *v.Referrers() {
+						if ex, ok := ref.(*ssa.Extract); ok && ex.Index == 0 {
+							answer = ex
+						}
+					}
+				}
+			}
+		}
+		if answer == nil {
+			continue // not a request wrapper
+		}
+		var bad []string
+		n := 0
+		for _, b := range f.Blocks {
+			for _, in := range b.Instrs {
+				ret, ok := an.AsReturn(in)
+				if !ok || len(ret.Results) != 2 || !an.IsNilConst(an.RetVal(ret, 1)) {
+					continue
+				}
+				n++
+				v := an.RetVal(ret, 0)
+				if ex, ok := v.(*ssa.Extract); ok && ex.Index == 0 {
+					v = ex.Tuple
+				}
+				ta, ok := v.(*ssa.TypeAssert)
+				if !ok || ta.X != answer {
+					bad = append(bad, "the success return at "+c.pos(ret.Pos())+" hands back "+an.RetVal(ret, 0).String()+", not the asserted answer")
+				}
+			}
+		}
+		if n == 0 {
+			continue
+		}
+		r.Check(len(bad) == 0, "R13.A", "answer:"+f.Name(), c.pos(f.Pos()), strings.Join(bad, "; "))
 	}
 }
